@@ -384,17 +384,24 @@ pub fn analyse(rep: &RunReport) -> Verdict {
         if !slot.panic_injected {
             continue;
         }
-        let panic_phase = ops.iter().filter(|r| r.obj == Some(o) && r.injects_panic && r.start.is_some()).map(|r| r.phase).min();
-        let Some(pp) = panic_phase else { continue };
+        let src = ops.iter().filter(|r| r.obj == Some(o) && r.injects_panic && r.start.is_some()).min_by_key(|r| r.phase);
+        let Some(src) = src else { continue };
+        let pp = src.phase;
+        // a future_sync body is polled by the task awaiting it, not by one of the queue's runners
+        let in_fs = src.kind == Kind::FutureSync;
         for r in ops.iter().filter(|r| r.obj == Some(o) && r.phase > pp && r.kind.has_body()) {
             match &r.outcome {
                 CallOutcome::Panicked(_) => {}
                 CallOutcome::Returned(_) | CallOutcome::Busy => {
-                    v(&mut out, "C15", "call_on_panicked_object_returned", &[r.id], r.ret.unwrap_or(0), format!("{} {} on panicked object {} returned normally instead of panicking", r.tag, r.id, o));
+                    if in_fs {
+                        v(&mut out, "C15", "panic_in_future_sync_not_contained", &[r.id], r.ret.unwrap_or(0), format!("the panic was raised inside future_sync {} (polled by its awaiting task); afterwards {} {} on object {} returned normally instead of panicking", src.id, r.tag, r.id, o));
+                    } else {
+                        v(&mut out, "C15", "call_on_panicked_object_returned", &[r.id], r.ret.unwrap_or(0), format!("{} {} on panicked object {} returned normally instead of panicking", r.tag, r.id, o));
+                    }
                 }
                 _ => {}
             }
-            if r.start.is_some() {
+            if r.start.is_some() && !in_fs {
                 v(&mut out, "C15", "ran_on_panicked_object", &[r.id], r.start.unwrap(), format!("{} {} ran on panicked object {}", r.tag, r.id, o));
             }
         }
@@ -447,6 +454,64 @@ pub fn analyse(rep: &RunReport) -> Verdict {
             blame_hang(rep, live, &mut out, &mut verdict);
         } else {
             end_state(rep, live, &mut out);
+        }
+    }
+
+    // C15: after the panic the pool can still stall as many jobs at once as its maximum allows
+    let probe: Vec<u32> = prog.capacity_probe.iter().copied().filter(|id| (*id as usize) < ops.len() && ops[*id as usize].kind == Kind::Desync && ops[*id as usize].blocking_steps).collect();
+    if !probe.is_empty() && probe.len() == prog.capacity_probe.len() && world.objs.iter().any(|o| o.panic_injected) {
+        let ph = ops[probe[0] as usize].phase;
+        if let Some(snap) = facts.q1.get(ph) {
+            let missing: Vec<u32> = probe.iter().copied().filter(|id| !snap.started_unfinished.contains(id)).collect();
+            let all_called = probe.iter().all(|id| matches!(ops[*id as usize].outcome, CallOutcome::Returned(_)));
+            if !missing.is_empty() && all_called {
+                v(&mut out, "C15", "capacity_not_restored", &missing, snap.seq, format!("after the panic only {} of {} stalled jobs could run at the same time (pool maximum {}): operations {:?} had not started at quiescence", prog.capacity_probe.len() - missing.len(), prog.capacity_probe.len(), prog.pool_max, missing));
+            }
+        }
+    }
+
+    // C16 / C11 at the quiescence reached after every gate has been opened: the input has been silent
+    // since the drop and has not ended
+    for (pi, snap) in facts.q2.iter().enumerate() {
+        for (oi, os) in world.outs.iter().enumerate() {
+            let (Some(s), Some(d)) = (os.src, os.dropped_at) else { continue };
+            if d > snap.seq {
+                continue;
+            }
+            let st = &world.streams[s];
+            let Some(pid) = st.pipe_op else { continue };
+            if ops[pid as usize].phase != pi || !matches!(ops[pid as usize].outcome, CallOutcome::Returned(_)) {
+                continue;
+            }
+            let silent = !world.events.iter().any(|e| e.seq > d && e.seq < snap.seq && (e.code == "push" || e.code == "close") && e.a == s as i64);
+            let o = st.obj.unwrap_or(0);
+            if !silent || min_pool(prog) == 0 || world.objs[o].panic_injected {
+                continue;
+            }
+            let (sd, cd) = snap.streams.get(s).copied().unwrap_or((0, 0));
+            if sd == 0 || cd == 0 {
+                v(&mut out, "C16", "pipe_not_shut_down", &[pid], snap.seq, format!("output {} of pipe {} was dropped but at quiescence (input silent) the input stream had been dropped {} times and the processing closure {} times", oi, pid, sd, cd));
+            }
+            if let Some(Some(n)) = snap.strong.get(o) {
+                let keepers = world.hrec.iter().filter(|h| h.kind == Kind::FutureSync && h.dropped_at.map_or(true, |x| x > snap.seq) && h.op.map_or(false, |op| ops[op as usize].obj == Some(o) && ops[op as usize].inv.map_or(false, |i| i < snap.seq))).count();
+                if *n > 1 + keepers {
+                    v(&mut out, "C16", "strong_reference_kept", &[pid], snap.seq, format!("output {} of pipe {} was dropped but the pipe still holds a strong reference on object {} at quiescence (count {})", oi, pid, o, n));
+                }
+            }
+        }
+        // pipe_in holds only a weak reference: once the owners are gone the value goes, stream open or not
+        for (s, st) in world.streams.iter().enumerate() {
+            let Some(pid) = st.pipe_op else { continue };
+            if ops[pid as usize].kind != Kind::PipeIn || ops[pid as usize].phase != pi {
+                continue;
+            }
+            let o = st.obj.unwrap_or(0);
+            let has_fs = ops.iter().any(|r| r.kind == Kind::FutureSync && r.obj == Some(o));
+            if let Some(td) = world.objs[o].table_dropped_at {
+                if td < snap.seq && !has_fs && world.objs[o].drop_ret.map_or(false, |x| x < snap.seq) && snap.value_drops.get(o) == Some(&0) {
+                    v(&mut out, "C11", "pipe_in_kept_object_alive", &[pid], snap.seq, format!("every owner of object {} was released but its value was still alive at quiescence while pipe_in on stream {} was open", o, s));
+                }
+            }
         }
     }
 
@@ -551,6 +616,44 @@ fn end_state(rep: &RunReport, live: Live, out: &mut Vec<Violation>) {
                 let prop = if pk == Kind::PipeIn { "C11" } else { "C16" };
                 if st.drops == 0 || st.closure_drops == 0 {
                     v(out, prop, "pipe_not_released", &[pid], 0, format!("stream {} (drops {}) / its processing closure (drops {}) were not released after the stream ended", s, st.drops, st.closure_drops));
+                }
+            }
+        }
+    }
+    // pipe_in: everything the stream yielded while the object was alive has been processed
+    if full && facts.teardown_complete {
+        for (s, st) in world.streams.iter().enumerate() {
+            let Some(pid) = st.pipe_op else { continue };
+            if ops[pid as usize].kind != Kind::PipeIn || !matches!(ops[pid as usize].outcome, CallOutcome::Returned(_)) {
+                continue;
+            }
+            let o = st.obj.unwrap_or(0);
+            if world.objs[o].panic_injected {
+                continue;
+            }
+            // items yielded before the object's owners started to go away must all have been processed
+            let cutoff = world.objs[o].table_dropped_at.unwrap_or(u64::MAX);
+            let pushed_before: usize = world.events.iter().filter(|e| e.code == "push" && e.a == s as i64 && e.seq < cutoff).count();
+            let pushed_before = pushed_before.min(st.pushed.len());
+            if world.objs[o].table_dropped_at.is_none() && st.processed.len() < pushed_before {
+                v(out, "C11", "items_lost", &[pid], 0, format!("stream {}: {} items were pushed while object {} was alive but only {} were processed: {:?} of {:?}", s, pushed_before, o, st.processed.len(), st.processed.iter().map(|p| p.0).collect::<Vec<_>>(), st.pushed));
+            }
+            if st.processed.iter().any(|p| p.2.is_none()) {
+                v(out, "C11", "item_processing_unfinished", &[pid], 0, format!("stream {}: processing of an item never finished", s));
+            }
+        }
+        for (oi, os) in world.outs.iter().enumerate() {
+            let Some(s) = os.src else { continue };
+            let st = &world.streams[s];
+            let o = st.obj.unwrap_or(0);
+            if world.objs[o].panic_injected || os.dropped_at.map_or(false, |d| d < facts.q1.last().map_or(0, |q| q.seq)) {
+                continue;
+            }
+            // the consumer asked until the end: it must have seen every output
+            if os.ended {
+                let expected = st.pushed.len();
+                if os.outputs.len() != expected {
+                    v(out, "C12", "outputs_lost", &[], 0, format!("pipe output {} ended after {} outputs for {} inputs", oi, os.outputs.len(), expected));
                 }
             }
         }
